@@ -1394,29 +1394,42 @@ class Container:
         if solute not in self.contents:
             raise ValueError(f"Container does not contain {solute.name}.")
 
-        new_ratio, numerator, denominator = Unit.calculate_concentration_ratio(solute, concentration, solvent)
+        new_concentration, numerator, denominator = Unit.parse_concentration(concentration)
 
         if numerator == 'U':
             if not solute.is_enzyme():
                 raise TypeError("Solute must be an enzyme.")
 
-        current_ratio = self.contents[solute] / sum(self.contents[substance] for
-                                                    substance in self.contents if not substance.is_enzyme())
-
-        if new_ratio <= 0:
+        if new_concentration <= 0:
             raise ValueError("Solution is impossible to create.")
 
-        if abs(new_ratio - current_ratio) <= 1e-6:
+        def storage_unit(substance):
+            return 'U' if substance.is_enzyme() else config.moles_storage_unit
+
+        # concentration = (solute in numerator units) / (whole mixture in denominator units);
+        # adding solvent only grows the denominator.
+        top = Unit.convert_from(solute, self.contents[solute], storage_unit(solute), numerator)
+        bottom = sum(Unit.convert_from(substance, amount, storage_unit(substance), denominator)
+                     for substance, amount in self.contents.items())
+        if top <= 0 or bottom <= 0:
+            raise ValueError("Solution is impossible to create.")
+        current_concentration = top / bottom
+
+        if abs(new_concentration - current_concentration) <= 1e-6 * current_concentration:
             return deepcopy(self)
 
-        if new_ratio > current_ratio:
+        if new_concentration > current_concentration:
             raise ValueError("Desired concentration is higher than current concentration.")
 
-        current_umoles = Unit.convert_from_storage(self.contents.get(solvent, 0), 'umol')
-        required_umoles = Unit.convert_from_storage(self.contents[solute], 'umol') / new_ratio - current_umoles
-        new_volume = self.volume + Unit.convert(solvent, f"{required_umoles} umol", config.volume_storage_unit)
+        bottom_per_unit_solvent = Unit.convert_from(solvent, 1, storage_unit(solvent), denominator)
+        if solvent == solute or bottom_per_unit_solvent <= 0:
+            raise ValueError("Solution is impossible to create.")
 
-        if new_volume > self.max_volume:
+        required_amount = (top / new_concentration - bottom) / bottom_per_unit_solvent
+        needed_solvent = f"{required_amount} {storage_unit(solvent)}"
+        new_volume = self.volume + Unit.convert(solvent, needed_solvent, config.volume_storage_unit)
+
+        if round(new_volume, config.internal_precision) > self.max_volume:
             raise ValueError("Dilute solution will not fit in container.")
 
         if name:
@@ -1425,9 +1438,8 @@ class Container:
             destination.name = name
         else:
             destination = self
-        needed_umoles = f"{required_umoles} umol"
-        result = destination._add(solvent, needed_umoles)
-        needed_volume, unit = Unit.get_human_readable_unit(Unit.convert(solvent, needed_umoles, 'L'), 'L')
+        result = destination._add(solvent, needed_solvent)
+        needed_volume, unit = Unit.get_human_readable_unit(Unit.convert(solvent, needed_solvent, 'L'), 'L')
         precision = config.precisions[unit] if unit in config.precisions else config.precisions['default']
         result.instructions += f"\nDilute with {round(needed_volume, precision)} {unit} of {solvent.name}."
         return result
